@@ -3,7 +3,7 @@
   Property theorems only; helper lemmas in ASV/Proofs/RegionExtract*.lean.
 
   `writeToGenbank rd rec = .ok w` : the model of `write_to_genbank(region, record, handle)` (the code
-  with fixes D10, D21, D21b–e applied) wrote the record `w.extract` and left the full record's
+  with fixes D10, D21, D21b–e and D58 applied) wrote the record `w.extract` and left the full record's
   features as `w.parentAfter`.  `rec.length` is the record length `L`; position `i` of the file is
   position `toRecord L rd i` of the record (`start + i`, modulo `L` over the origin).
 
@@ -84,10 +84,10 @@ def ShiftSameBases (rd : RegionData) (rec : BioRecord) (w : Written) : Prop :=
 /-- Proved under `wfInput rd rec`: the record is not empty; the region lies in it (`0 ≤ start < end ≤ L`, or
     `0 < end ≤ start < L` over the origin, `start = end` being a region all the way round); every feature has
     non-empty parts inside the record; and, only for a region over the origin, where `offset_location` is at
-    work: a feature running over the origin has one part on each side, or is shorter than the record and
-    `rotOK` (parts of one strand; no three exons in a row each ending where the next starts — there
-    `offset_location` itself drops bases, KF-C12-abutting-exons); any other feature has exons fitting into its
-    hull and is `rotOK`.  Nothing else is assumed: any number of exons, both strands. -/
+    work: a feature running over the origin has one part on each side, or is shorter than the record with all
+    parts on one strand (`oneStrand`: abutting pieces of different strands make `offset_location` raise); any
+    other feature has exons fitting into its hull and all parts on one strand.  Nothing else is assumed: any
+    number of exons, abutting exons in runs of any length (after the repair D58), both strands. -/
 theorem shift_same_bases_partial (rd : RegionData) (rec : BioRecord) (w : Written)
     (h : writeToGenbank rd rec = .ok w) (hwf : wfInput rd rec = true) : ShiftSameBases rd rec w :=
   fun g hg => written_sameBases rd rec w h hwf g hg
